@@ -200,7 +200,10 @@ META = {
                  "swapped order refuted) is bridged to the source (tie G) and exercised with a second client whose original DCID is an ID issued to "
                  "the first connection; per-path peer IDs (active_path_packets_unretired; dropped write-back refuted) with clients toggling between "
                  "two addresses while IDs are retired. Retire Prior To only grows: both assignments in local_id_registry.rs are re-read and bridged, and "
-                 "scenarios use connection-ID providers with per-ID lifetimes so that IDs expire out of sequence-number order."),
+                 "scenarios use connection-ID providers with per-ID lifetimes so that IDs expire out of sequence-number order (this exhibited on "
+                 "the real code what the model had proved as a counterexample: retire_prior_to > sequence number in a frame; repaired in "
+                 "/repo, f182fcd; the registry model keeps the uncapped field, the capped form is pinned by a bridge lemma and checked on "
+                 "every trace)."),
         "note": ("Trusted: Lean kernel (standard axioms), vh-e2e harness, python oracle. No in-crate differential tie for the registries (private to "
                  "s2n-quic-transport). Known finding F14 (expired-unconfirmed IDs unroutable). Observation outside the property text (counted in the "
                  "evidence, not reported): path-validation probes of non-active paths keep using a peer ID the peer retired."),
